@@ -57,6 +57,17 @@ CHECKS = {
             "arcs, circles, disks and annuli are checked to lie on exact circles. Sampling, not proof.",
             "Trusted: vp/ref/bspl.py, vp/ref/geo.py, numpy. Derivatives are compared only where they are continuous.",
             "DESIGN.md section 2, C07"),
+    "C16": ("exploration",
+            "Hypothesis-generated operands (dense/CSR/CSC/LinearOperator, rectangular, mixed dtypes/layouts) and arguments; "
+            "oracle = explicit dense matrices built with numpy.kron / numpy.block / numpy.linalg.solve",
+            "Kronecker, block, block-diagonal, diagonal, identity, null and subspace operators with their .T/.H chains, "
+            "apply_tprod (None placeholders, trailing axes), modek_tprod, apply_kronecker, make_solver / "
+            "make_kronecker_solver / fastdiag_solver (residual oracle scaled by the condition number) and CSRRowSlice/"
+            "CSRRowSubset are compared with their dense definitions for vector, column and multi-column arguments. "
+            "Entries are small dyadic rationals so the dense references are exact. Sampling, not proof.",
+            "Trusted: numpy dense linear algebra. Excluded as outside the documented domain: BlockOperator with None "
+            "placeholders, fastdiag_solver with sparse inputs, complex dtypes.",
+            "DESIGN.md section 2, C16"),
     "C19": ("exploration",
             "exhaustive enumeration of (p,n,mult) + Hypothesis-generated intervals/knot vectors/points against a "
             "linear-scan / exact-rational reference model",
